@@ -181,56 +181,54 @@ func verifC16DLConnect(cs verifC16DLCase, secret []byte) (*verifC16DLConn, error
 }
 
 type verifC16DLRound struct {
-	cErr, sErr error
-	garbled    string
+	mu        sync.Mutex
+	firstSide string // which end failed first ("" = none)
+	firstErr  error
+	garbled   string
 }
 
-func (r verifC16DLRound) ok() bool { return r.cErr == nil && r.sErr == nil && r.garbled == "" }
+func (r *verifC16DLRound) ok() bool { return r.firstErr == nil && r.garbled == "" }
 
-func (r verifC16DLRound) onlyWatchdog() bool {
-	w := func(e error) bool { return e == nil || strings.Contains(e.Error(), "watchdog") }
-	return r.garbled == "" && w(r.cErr) && w(r.sErr) && !(r.cErr == nil && r.sErr == nil)
+func (r *verifC16DLRound) onlyWatchdog() bool {
+	return r.garbled == "" && r.firstErr != nil && strings.Contains(r.firstErr.Error(), "watchdog")
 }
 
 // verifC16DLExchange runs k tagged request/reply rounds; "opener" is the end that opened the SCTP stream (the
 // accepting end only learns of the stream through the opener's first message, so the opener speaks first).
-func verifC16DLExchange(opener, acceptor net.Conn, secret []byte, firstInst, k int) verifC16DLRound {
-	var r verifC16DLRound
-	var wg sync.WaitGroup
-	wg.Add(2)
-	go func() {
-		defer wg.Done()
-		for i := 0; i < k; i++ {
-			peer, err := verifC16Exchange(opener, secret, "c", firstInst+i)
-			if err != nil {
-				r.cErr = err
-				return
-			}
-			if !bytes.Equal(peer, verifC16Tag(secret, "s", firstInst+i)) {
-				r.garbled = fmt.Sprintf("opener read %q in round %d", peer, firstInst+i)
-				return
-			}
+// The first failure is what is judged; it also closes both conns so that the other end does not sit out its watchdog.
+func verifC16DLExchange(opener, acceptor net.Conn, secret []byte, firstInst, k int) *verifC16DLRound {
+	r := &verifC16DLRound{}
+	fail := func(side string, err error, garbled string) {
+		r.mu.Lock()
+		first := r.firstErr == nil && r.garbled == ""
+		if first {
+			r.firstSide, r.firstErr, r.garbled = side, err, garbled
 		}
-	}()
-	var sg string
-	go func() {
-		defer wg.Done()
-		for i := 0; i < k; i++ {
-			peer, err := verifC16Exchange(acceptor, secret, "s", firstInst+i)
-			if err != nil {
-				r.sErr = err
-				return
-			}
-			if !bytes.Equal(peer, verifC16Tag(secret, "c", firstInst+i)) {
-				sg = fmt.Sprintf("acceptor read %q in round %d", peer, firstInst+i)
-				return
-			}
+		r.mu.Unlock()
+		if first {
+			opener.Close()
+			acceptor.Close()
 		}
-	}()
-	wg.Wait()
-	if r.garbled == "" {
-		r.garbled = sg
 	}
+	var wg sync.WaitGroup
+	run := func(conn net.Conn, side, peerSide, name string) {
+		defer wg.Done()
+		for i := 0; i < k; i++ {
+			peer, err := verifC16Exchange(conn, secret, side, firstInst+i)
+			if err != nil {
+				fail(name, err, "")
+				return
+			}
+			if !bytes.Equal(peer, verifC16Tag(secret, peerSide, firstInst+i)) {
+				fail(name, nil, fmt.Sprintf("%s read %q in round %d", name, peer, firstInst+i))
+				return
+			}
+		}
+	}
+	wg.Add(2)
+	go run(opener, "c", "s", "sctp-opener")
+	go run(acceptor, "s", "c", "sctp-acceptor")
+	wg.Wait()
 	return r
 }
 
@@ -261,7 +259,7 @@ func verifC16RunDL(cs verifC16DLCase, secret []byte) verifC16DLResult {
 	if !r1.ok() {
 		// not the subject of this monitor (the handshake monitor judges fresh sessions)
 		res.outcome = "inconclusive"
-		res.detail["first_exchange"] = fmt.Sprintf("%v / %v / %s", r1.cErr, r1.sErr, r1.garbled)
+		res.detail["first_exchange"] = fmt.Sprintf("%s: %v %s", r1.firstSide, r1.firstErr, r1.garbled)
 		p.c.Close()
 		p.s.Close()
 		return res
@@ -273,8 +271,8 @@ func verifC16RunDL(cs verifC16DLCase, secret []byte) verifC16DLResult {
 	r2 := verifC16DLExchange(opener, acceptor, secret, 100, 3)
 	p.c.Close()
 	p.s.Close()
-	res.detail["second_exchange_opener_err"] = verifC16ErrString(r2.cErr)
-	res.detail["second_exchange_acceptor_err"] = verifC16ErrString(r2.sErr)
+	res.detail["second_exchange_first_failure_at"] = r2.firstSide
+	res.detail["second_exchange_first_error"] = verifC16ErrString(r2.firstErr)
 	res.detail["second_exchange_garbled"] = r2.garbled
 	switch {
 	case r2.ok():
